@@ -244,6 +244,27 @@ def faults_case(case, counters, viol, nontrivial):
                 viol.append({"mech": "C12/checkpoint-iterations-differ-from-cadence/continued-run", "detail": f"{where}: continued from iteration {start[1]} with cadence {e2} over {T2} iterations: payload iterations {its2}, required {want2}"})
         finally:
             rm_tmp(path)
+    # ---- the job ended after the run's closing checkpoint; it is continued from that payload while checkpointing to ANOTHER
+    #      file: nothing is left to compute, but "once at the end" still holds - the new file must end up with the closing payload
+    if ref_dumps and cfg["sampler"] != "emcee_smc":
+        path = tmpfile("closing.h5")
+        try:
+            del DUMPS[:]
+            _, a4, _ = recorded.build(cfg)
+            from .. import smcrun
+
+            res4 = smcrun.run(a4, cfg["n"], cfg["sampler"], recorded.sample_kwargs(cfg, ckpt_path=path, resume_from=ref_dumps[-1][2]), max_calls=5000)
+            if res4.exc is not None:
+                raise res4.exc
+            counters["continued_from_the_closing_checkpoint_into_another_file"] += 1
+            its4 = [it for (fn, it, b) in DUMPS if fn == os.path.realpath(path)]
+            st4 = read_file(path)
+            if its4 != [T] or st4["state"] is None:
+                viol.append({"mech": "C12/no-closing-checkpoint-in-the-file-of-a-continued-run", "detail": f"{where}: continued from the closing checkpoint (iteration {T}) into a new file: payload iterations written {its4}, file holds {None if st4['state'] is None else len(st4['state'])} bytes, config={st4['config']} flow={st4['flow']}"})
+            elif st4["state"] != [d for d in DUMPS if d[0] == os.path.realpath(path)][-1][2]:
+                viol.append({"mech": "C12/file-after-normal-end-differs-from-last-payload/continued-from-closing-checkpoint", "detail": where})
+        finally:
+            rm_tmp(path)
     # ---- second use after a caught failure: inside one auto_checkpoint context a bigger run is interrupted (the caller
     #      catches the exception), then this run is made; its checkpoints must be written as if nothing had happened before
     if mode == "auto" and cfg["sampler"] != "emcee_smc":
